@@ -54,6 +54,8 @@ def case_tags(case):
                      else 'mutex' if (lo, hi) == (0, 1) else 'cardinality')
         if hi == -1:
             tags.add('star')
+        if hi > n:
+            tags.add('overhi-group' if n > 1 else 'overhi-single')
     for r in m['rels']:
         if len(r['kids']) >= 10 and r['lo'] >= 2 and r['hi'] >= 10:
             tags.add('wide10')
@@ -505,6 +507,13 @@ def script_c19(case, naming, tier, seed):
             o = observe.new_op(op)
             events.append(_exec_any(o, k + 1, op, b.model, naming, b, 1))
             events.append(_exec_any(o, k + 1, op, b.model, naming, b, 2))
+        # a filtered report: the caller's own list handed in once, the object executed twice, then another object given the same list
+        flt = ['leaf_features', 'depth_tree', 'or_groups']
+        mine = list(flt)
+        fobj = observe.new_op('metrics')
+        events.append(observe.exec_metrics(fobj, 40, b.model, naming, flt=flt, caller_list=mine, with_agree=False))
+        events.append(observe.exec_metrics(fobj, 40, b.model, naming, flt=flt, seqno=2, apply_filter=False, with_agree=False))
+        events.append(observe.exec_metrics(observe.new_op('metrics'), 41, b.model, naming, flt=flt, caller_list=mine, with_agree=False))
         return events, {'history': {'kind': 'allops'}}
     pool = case['pool']
     events = []
@@ -966,8 +975,8 @@ REF_FORMATS = {
                  wanted=['and-in-or', 'or-in-and', 'and-in-implies', 'or-in-implies', 'chain6', 'chain7', 'chain10', 'chain12', 'dupctc', 'sameshapectc', 'mandatory', 'optional', 'or', 'alternative', 'abstract', 'multi-rel-parent', 'nary', 'op:NOT', 'op:AND',
                          'op:OR', 'op:IMPLIES', 'op:EQUIVALENCE', 'op:REQUIRES', 'op:EXCLUDES'],
                  ok=lambda m: True),
-    'xml': dict(surface='Surface-xml', sources=['Ref-xml', 'Tree', 'Ref-xml-Wide'], size=10,
-                wanted=['mandatory', 'optional', 'or', 'alternative', 'mutex', 'cardinality', 'card1', 'multi-rel-parent',
+    'xml': dict(surface='Surface-xml', sources=['Ref-xml', 'Tree', 'Ref-xml-Wide', 'Ref-xml-Over'], size=12,
+                wanted=['overhi-group', 'overhi-single', 'mandatory', 'optional', 'or', 'alternative', 'mutex', 'cardinality', 'card1', 'multi-rel-parent',
                         'op:REQUIRES', 'op:EXCLUDES', 'wide10'],
                 ok=lambda m: all(c['ast']['op'] in ('REQUIRES', 'EXCLUDES') and c['ast']['l']['op'] == 'VAR'
                                  and c['ast']['r']['op'] == 'VAR' for c in m['ctcs'])
